@@ -245,7 +245,17 @@ class Eval:
             # same SSA value on both sides
             if d["a"] == d["b"]:
                 return av_in(1 if pred in ("eq", "sle", "sge", "ule", "uge") else 0)
+            # unsigned comparisons against zero are decided whatever the other side is
+            za = a is not None and a == av_in(0)
+            zb = b is not None and b == av_in(0)
+            if za and pred in ("ule", "ugt"):
+                return av_in(1 if pred == "ule" else 0)
+            if zb and pred in ("uge", "ult"):
+                return av_in(1 if pred == "uge" else 0)
             return None
+        return self._icmp2(pred, a, b, w, d)
+
+    def _icmp2(self, pred, a, b, w, d):
         if a[0] == "in" and b[0] == "in":
             if len(a[1]) * len(b[1]) > 64:
                 return None
